@@ -67,3 +67,19 @@ Print Assumptions C02_autoregressive_inverse_exact.
    (C14_batchnorm_inverse_only_in_eval) are proved in the files of those properties.
    NOT PROVED: the cubic inverse (closed-form roots with declared tolerances), LogTanh / tanh / sigmoid /
    Cauchy inverse identities, UMNN's bisection; floating-point accuracy and finiteness. *)
+
+(* ---- the whole rational-quadratic spline: the inverse branch undoes the forward branch and vice versa, on the whole box,
+   for every accepted configuration and all parameters; the log-abs-dets are negatives of each other ---- *)
+From NF Require Import Base.Result Model.SplineRQ Proofs.SplineRQWhole.
+Theorem C02_rq_whole_spline_round_trips :
+  forall (c : @rq_cfg R) (bx : @box R) (uw uh ud : list R), rq_wellformed c bx uw uh ud ->
+  (forall x, b_left bx <= x <= b_right bx ->
+     rq_spline Rops c true bx uw uh ud (F c bx uw uh ud x) = Ok (x, - Flad c bx uw uh ud x)) /\
+  (forall y, b_bottom bx <= y <= b_top bx ->
+     exists x l, rq_spline Rops c true bx uw uh ud y = Ok (x, l) /\ (b_left bx <= x <= b_right bx) /\
+                 F c bx uw uh ud x = y /\ l = - Flad c bx uw uh ud x).
+Proof.
+  intros c bx uw uh ud [H1 [H2 [H3 [H4 [H5 [H6 [H7 [H8 [H9 [H10 H11]]]]]]]]]].
+  split; [apply whole_inverse_of_forward; assumption | apply whole_forward_of_inverse; assumption].
+Qed.
+Print Assumptions C02_rq_whole_spline_round_trips.
